@@ -9,7 +9,7 @@
    wf_out = "absent, or empty, or exactly one header followed by complete rows with distinct names". *)
 From Coq Require Import Permutation.
 From Pan Require Import Base.Common Model.Aggregator Proofs.AggBase Proofs.AggInv Proofs.AggSess Proofs.AggFinal
-  Proofs.AggProgress Proofs.AggOracle Proofs.AggC17 Proofs.AggProg.
+  Proofs.AggProgress Proofs.AggOracle Proofs.AggC17 Proofs.AggProg Proofs.AggMulti.
 
 (* the four initial states of the property satisfy the invariant *)
 Theorem C17_initial_states : forall h0 R,
@@ -65,6 +65,14 @@ Theorem C17_noninterference_step : forall ms ms',
 Proof. exact mstep_projects. Qed.
 Theorem C17_noninterference : forall m0 m, mreach m0 m -> Forall2 hreach m0 m.
 Proof. exact mreach_projects. Qed.
+
+(* no deadlock among several aggregators sharing the two locks (the constructor nests file-lock inside
+   eval-lock; no call waits for the eval-lock while holding the file-lock): unless every aggregator's
+   session has finished (or its constructor rejected the file), some step is enabled *)
+Theorem C17_siblings_deadlock_free : forall ms,
+  Forall (fun s => exists R0, SInv R0 s /\ nofail s) ms ->
+  (exists s, In s ms /\ ~ mdone s) -> exists ms', mstep ms ms'.
+Proof. exact mprogress. Qed.
 
 (* the files of different aggregators are different files: the buffer name is derived injectively from
    the output name (T1 ties buf_prefix to the source), provided no output file is itself named like a
